@@ -14,6 +14,7 @@ NFAM = 5
 FALLBACK_VALUE = 0xA5
 
 PROFILES = {
+    "mixed-panic":  dict(directed=True, spec="evalo"),
     # cyc: families of the nodes that may form cycles; top: family of acyclic callers;
     # ops: binary operators allowed in bodies; spec: specification column printed by the driver
     "cycles":       dict(cyc=[FIX, FIXJOIN], top=NOCYCLE, leaf=PLAIN, ops=["or", "and"], spec="kleene",
@@ -174,8 +175,83 @@ class CGen:
                       ["ival"] + ival, ["idur"] + idur, ["prog"] + nodes, ["hist"] + hist])
 
 
+def mixed_panic_case(r, cid, size):
+    """Directed family (a seeded defect the random profiles missed made it necessary): a function
+    WITHOUT cycle recovery (entry) calls a fixpoint head; while an input bit is set the head calls
+    participants (with or without recovery, reading only the head) and then, directly or through a
+    helper, the entry again: the cycle through the entry panics and ABANDONS the provisional memos
+    the participants completed against the head's provisional value.  Then a write removes every
+    cycle and all functions are requested in a random order: every result must equal the
+    from-scratch evaluation (specification evalo; while the cycle exists only the entry is
+    requested, whose from-scratch evaluation re-enters a node = cycle error)."""
+    nk = 3
+    ni = 2
+    c_i, c_f = r.randrange(ni), r.randrange(3)
+    d_i, d_f = r.randrange(ni), r.randrange(3)
+    while (d_i, d_f) == (c_i, c_f):
+        d_i, d_f = r.randrange(ni), r.randrange(3)
+    head_f = r.choice([FIX, FIXJOIN])
+    ent_f = r.choice([NOCYCLE, PLAIN])
+    oth = PLAIN if ent_f == NOCYCLE else NOCYCLE
+    head = (head_f, 0)
+    entry = (ent_f, 0)
+    npart = r.randint(1, 2)
+    parts = [(r.choice([oth, head_f]), 1 + j) for j in range(npart)]
+    nodes = []
+    for (f, k) in parts:
+        nodes.append(["node", f, k, ["op", r.choice(["or", "add", "max"]), ["call", head[0], ["lit", head[1]]],
+                                     ["lit", r.choice([1, 2, 4, 8])]]])
+    through_parts = ["call", parts[0][0], ["lit", parts[0][1]]]
+    for (f, k) in parts[1:]:
+        through_parts = ["op", "or", through_parts, ["call", f, ["lit", k]]]
+    back = ["call", entry[0], ["lit", entry[1]]]
+    if r.random() < 0.4:
+        helper = (oth, 0) if (oth, 0) not in parts else (ent_f, 1)
+        nodes.append(["node", helper[0], helper[1], back])
+        back = ["call", helper[0], ["lit", helper[1]]]
+    else:
+        helper = None
+    acyclic = ["in", d_i, d_f] if r.random() < 0.5 else ["lit", r.choice([3, 10, 16])]
+    nodes.append(["node", head[0], head[1], ["if", ["in", c_i, c_f], ["op", r.choice(["or", "max"]), through_parts, back], acyclic]])
+    nodes.append(["node", entry[0], entry[1], ["call", head[0], ["lit", head[1]]]])
+    ival = [[i, f, 0] for i in range(ni) for f in range(3)]
+    for x in ival:
+        if (x[0], x[1]) == (c_i, c_f):
+            x[2] = 1
+        elif (x[0], x[1]) == (d_i, d_f):
+            x[2] = r.choice(MASKS)
+    everything = [entry, head] + parts + ([helper] if helper else [])
+    hist = [["get", entry[0], entry[1]]]
+    for ph in range(r.randint(1, 3)):
+        if r.random() < 0.3:
+            hist.append(["get", entry[0], entry[1]])
+        if r.random() < 0.3:
+            hist.append(["set", d_i, d_f, r.choice(MASKS)])
+            hist.append(["get", entry[0], entry[1]])
+        hist.append(["set", c_i, c_f, 0])                     # the cycle is gone
+        order = list(everything)
+        r.shuffle(order)
+        for q in order[:r.randint(2, len(order))]:
+            hist.append(["get", q[0], q[1]])
+        if r.random() < 0.5:
+            hist.append(["set", d_i, d_f, r.choice(MASKS)])
+            r.shuffle(order)
+            for q in order[:r.randint(1, len(order))]:
+                hist.append(["get", q[0], q[1]])
+        if ph + 1 < 3:
+            hist.append(["set", c_i, c_f, 1])                 # the cycle is back
+            hist.append(["get", entry[0], entry[1]])
+    hist.append(["set", c_i, c_f, 0])
+    for q in everything:
+        hist.append(["get", q[0], q[1]])
+    return se.sx(["case", cid, ["cfg", ["nk", nk], ["ni", ni], ["nf", 3], ["nfam", NFAM], ["spec", "evalo"]],
+                  ["ival"] + ival, ["idur"], ["prog"] + nodes, ["hist"] + hist])
+
+
 def generate(seed, profile, n, size, prefix="c"):
     rng = random.Random(f"cycle/{seed}/{profile}/{size}")
+    if profile == "mixed-panic":
+        return [mixed_panic_case(rng, f"{prefix}{i}", size) for i in range(n)]
     g = CGen(rng, profile, size)
     return [g.case(f"{prefix}{i}") for i in range(n)]
 
@@ -238,7 +314,7 @@ def spec_only_compare(impl_lines, model_lines):
         if b["R"].get(i) == "panic 5":
             continue
         want = "panic 2" if b["V"][i] == "cycle" else b["V"][i]
-        if a["R"].get(i) != want:
+        if a["R"].get(i) != want and not (b["V"][i] == "cycle" and a["R"].get(i) == "panic 7"):
             return dict(level="spec", step=i, impl=a["R"].get(i), model=want)
     return dict(level=None)
 
